@@ -96,7 +96,9 @@ def spec_to_lean(spec, unit_info):
     out["patterns"] = [{"name": n, "usage_journey": p["usage_journey"], "devices": p["devices"],
                         "network": p["network"], "country": p["country"],
                         "hourly_usage_journey_starts": hourly_json(unit_info, p["hourly_usage_journey_starts"])}
-                       for n, p in spec["patterns"].items()]
+                       for n, p in spec["patterns"].items()
+                       # a usage pattern that has never been part of the system has never been computed: it loads nothing
+                       if n in spec["system"]["usage_patterns"] or n in spec["system"].get("removed", [])]
     out["system"] = list(spec["system"]["usage_patterns"])
     return out
 
